@@ -202,6 +202,11 @@ def run(rep: Report, tier: str) -> None:
     if not found:
         raise AnalysisError("GainLossSet construction not found in _create_unfiltered_gain_and_loss_set")
 
+    rf_ = rep.rule("C10.f", "the to-date filters, it does not cut short: a walk over entries sorted by instant that tests each entry's own (local) date must skip late entries, not stop at the first one", floor=1)
+    check_monotone_cut(rep, rf_, m)
+    check_iterator_extent(rep, ra, m)
+    check_cut_kinds(rep, rf_, m)
+
     # the window travels unchanged and uncrossed: -f/-t -> Configuration(from_date=, to_date=) -> compute_tax -> ComputedData(from_date, to_date) / InputData
     re_ = rep.rule("C10.e", "window plumbing: each bound is forwarded under its own name from the command line to Configuration, ComputedData and InputData", floor=5)
     ct = prog.func("rp2.tax_engine", "compute_tax")
@@ -460,3 +465,98 @@ def check_iterator_window(rep: Report, rule: str, m, consequence: str) -> None:
             missing_bound(rep, rule, m, it, kind, f"iterator enforces the {kind}-date on the entry's calendar date", consequence)
         for c in mine:
             _judge(rep, rule, m, it, c)
+    check_iterator_extent(rep, rule, m)
+
+
+def check_iterator_extent(rep: Report, rule: str, m) -> None:
+    """The iterator walks the set's list by index up to a size it takes from the set: that size must be the length of the very list it indexes
+    (a 'number of entries inside the window' would stop the walk before the last in-window entries when earlier entries precede the from-date)."""
+    prog, norm = m.prog, m.norm
+    base = prog.cls("rp2.abstract_entry_set", "AbstractEntrySet")
+    cnt = base.methods.get("count")
+    if cnt is None:
+        return  # no such property in this shape: nothing to restate
+    rep.analysed(cnt)
+    t = norm.inline(cnt, ("sym", "s"), {}, Ctx(cnt.module, base))
+    want = ("xcall", "len", None, (("fld", ("sym", "s"), "AbstractEntrySet._entry_list"),), ())
+    rep.check(
+        tkey(t) == tkey(want),
+        rule,
+        cnt.module,
+        cnt.qualname,
+        "entry-set size = length of the entry list (the bound of every index walk over it)",
+        f"AbstractEntrySet.count evaluates to {show(t)[:200]}; expected len(self._entry_list): the set's iterator (and is_empty) use it as the bound of an index walk over the whole time-sorted list, "
+        "so a smaller number ends the walk before the last entries of the window",
+        loc(cnt.node),
+        definite=t[0] != "call",
+    )
+
+
+CUT_SITES = (
+    ("rp2.abstract_entry_set", "EntrySetIterator.__next__"),
+    ("rp2.gain_loss_set", "GainLossSet._sort_entries"),
+    ("rp2.computed_data", "ComputedData._create_yearly_gain_loss_list"),
+)
+
+
+def check_cut_kinds(rep: Report, rule: str, m) -> None:
+    """Detail rows (iterator), fraction numbering and yearly lines are all cut at the to-date over the same time-sorted sequence. With mixed UTC offsets the
+    entries' own dates are not monotonic in that order, so 'stop at the first entry after the to-date' and 'skip entries after the to-date' select different
+    entries: the three sites must treat a late entry the same way, or the summary and the detail table disagree."""
+    kinds = {}
+    for mod, qual in CUT_SITES:
+        fi = m.prog.func(mod, qual)
+        rep.analysed(fi)
+        found = None
+        for n in ast.walk(fi.node):
+            if isinstance(n, ast.If) and "to_date" in unparse(n.test) and ".date()" in unparse(n.test) and not n.orelse and n.body:
+                last = n.body[-1]
+                found = "stop" if isinstance(last, (ast.Break, ast.Raise, ast.Return)) else "skip" if isinstance(last, ast.Continue) else None
+                if found:
+                    kinds[qual] = (found, n)
+                    break
+        if found is None:
+            rep.note(f"{qual}: the to-date is not applied in the 'if <date> > to_date: break/continue/raise' form: cut kinds not compared")
+            return
+    distinct = {k for k, _ in kinds.values()}
+    if len(distinct) == 1:
+        rep.ok(rule, f"all to-date cuts over the time-sorted sequence {next(iter(distinct))} at the first late entry", ", ".join(kinds))
+        return
+    odd = [q for q, (k, _) in kinds.items() if k == "skip"] if sum(1 for k, _ in kinds.values() if k == "skip") <= 1 else [q for q, (k, _) in kinds.items() if k == "stop"]
+    for q in odd:
+        k, node = kinds[q]
+        mod = next(mo for mo, qq in CUT_SITES if qq == q)
+        rep.violation(rule, mod, q, f"to-date cut kind of {q}", f"{q} {k}s at an entry dated after the to-date ({short(node, 80)}) while {[(qq, kk) for qq, (kk, _) in kinds.items() if qq != q]}: when local dates are not monotonic in time order "
+                      "(mixed UTC offsets around the to-date) the sites select different entries - fractions in the detail table that no yearly line counted, or the reverse", loc(node), definite=True)
+
+
+def check_monotone_cut(rep: Report, rule: str, m) -> None:
+    """A to-date cut that *stops* the walk (break / StopIteration / return) at the first entry whose own calendar date is after the to-date equals a filter
+    only if own dates never decrease along the walk. The walks are over lists sorted by instant; own (local) dates are monotonic in instant order only when
+    all timestamps share one UTC offset. With mixed offsets an entry inside the window that sorts after a late one is never reached."""
+    sites = list(CUT_SITES) + [("rp2.balance", "BalanceSet.__init__")]
+    for mod, qual in sites:
+        fi = m.prog.func(mod, qual)
+        rep.analysed(fi)
+        hit = None
+        for n in ast.walk(fi.node):
+            if isinstance(n, ast.If) and "to_date" in unparse(n.test) and ".date()" in unparse(n.test) and not n.orelse and n.body:
+                hit = n
+                break
+        if hit is None:
+            rep.note(f"{qual}: no 'if <own date> > to_date: ...' statement: whether the to-date stops or filters the walk is not read from this shape (the window comparisons themselves are judged by the other rules)")
+            continue
+        last = hit.body[-1]
+        if isinstance(last, ast.Continue):
+            rep.ok(rule, f"{qual}: entries after the to-date are skipped, the walk goes on", short(hit, 80))
+            continue
+        rep.violation(
+            rule,
+            mod,
+            qual,
+            f"to-date cut stops the walk: {qual}",
+            f"{qual} ends its walk over the time-sorted entries at the first one whose own date is after the to-date ({short(hit, 90)}): own (local) dates are not monotonic in instant order "
+            "when UTC offsets differ, so an entry dated inside the window that sorts after it is dropped (e.g. to-date 2021-12-31: 2022-01-01 00:20 +01:00 sorts before 2021-12-31 22:15 -08:00)",
+            loc(hit),
+            definite=True,
+        )
